@@ -183,6 +183,8 @@ func (dist *BinomialDistribution) ImportConfig(config ConfigDistribution, t Scal
 }
 
 func (dist *BinomialDistribution) ExportConfig() ConfigDistribution {
-
-  return NewConfigDistribution("scalar:binomial distribution", dist.GetParameters())
+  // theta is stored on log-scale, ImportConfig expects the probability
+  p := dist.GetParameters()
+  p.At(0).Exp(p.At(0))
+  return NewConfigDistribution("scalar:binomial distribution", p)
 }
